@@ -783,3 +783,8 @@ package main
 //@   atcall (*database/sql.DB).Prepare sets ghostPrimaryQueried bool (db *sql.DB, query string, st *sql.Stmt, err2 error) :: false
 //@   atcall (*database/sql.Row).Scan sets ghostPrimaryQueried bool (row *sql.Row, dest []any, err2 error) :: true
 //@   atcall chansend requires (msg loadUserProfileData) :: ghostPrimaryQueried   #C15.primary-reports-only-query-results @C15
+//@ func (*RuntimeState).GetSigned
+//@   spawned checked
+//@   atcall (*database/sql.DB).Prepare sets ghostPrimaryQueried bool (db *sql.DB, query string, st *sql.Stmt, err2 error) :: false
+//@   atcall (*database/sql.Row).Scan sets ghostPrimaryQueried bool (row *sql.Row, dest []any, err2 error) :: true
+//@   atcall chansend requires (msg getSignedData) :: ghostPrimaryQueried   #C15.primary-reports-only-signed-record-query-results @C15,C07
